@@ -70,6 +70,9 @@ func Register(ch *Check) {
 type knownFinding struct {
 	Property string `json:"property"`
 	Key      string `json:"key"`
+	// KeyPrefix matches every key that starts with it: for one root cause that
+	// shows up under many per-type keys (<class>/<cause>:<type>).
+	KeyPrefix string `json:"key_prefix,omitempty"`
 	Status   string `json:"status"` // known | fixed
 	Commit   string `json:"commit,omitempty"`
 	What     string `json:"what"`
@@ -223,9 +226,10 @@ func (c *Ctx) Violation(key string, witness any, format string, args ...any) {
 	c.mu.Lock()
 	defer c.mu.Unlock()
 	for _, k := range c.known {
-		if k.Property == c.ID && k.Status == "known" && k.Key == key {
-			if !c.knownSeen[key] {
-				c.knownSeen[key] = true
+		if k.Property == c.ID && k.Status == "known" && ((k.Key != "" && k.Key == key) || (k.KeyPrefix != "" && strings.HasPrefix(key, k.KeyPrefix))) {
+			kk := k.Key + k.KeyPrefix
+			if !c.knownSeen[kk] {
+				c.knownSeen[kk] = true
 				fmt.Printf("KNOWN-FINDING: property=%s %s\n", c.ID, k.What)
 			}
 			c.counters["known_finding_observations"]++
